@@ -168,7 +168,13 @@ where
             {
                 self.publish_value(
                     LocationAndType::Basic(*address),
-                    MemoryValue::Basic(Some(AccountInfo { code: None, ..info.clone() })),
+                    // Non-empty code travels through the `Code` location. Keep an explicitly loaded
+                    // *empty* bytecode, as revm's cache does, so that a later writer of this account
+                    // reports the same (empty) new contract in the bundle.
+                    MemoryValue::Basic(Some(AccountInfo {
+                        code: info.code.clone().filter(Bytecode::is_empty),
+                        ..info.clone()
+                    })),
                     estimate,
                     &mut write_set,
                 );
